@@ -17,7 +17,7 @@ RULE = ("(a) random programs x wild renderings (blank lines, comment lines, trai
         "raw line breaks inside quoted strings) x eol in {LF, CRLF, CR} x parser histories of 0-3 earlier texts; (b) every fault kind "
         "x random position in random valid EEMS models, via API and CLI; distinct by (eol, history kinds, node kinds) / (fault kind, "
         "command, parameter, spread)")
-REQUIRED_COUNTERS = ["tree_nodes_compared", "histories_with_reuse", "fault_linenos_checked", "cli_marker_lines_checked", "eems2_fault_linenos_checked", "runtime_fault_linenos_checked", "lineless_runtime_errors_checked", "cycle_error_linenos_checked"]
+REQUIRED_COUNTERS = ["tree_nodes_compared", "histories_with_reuse", "fault_linenos_checked", "cli_marker_lines_checked", "eems2_fault_linenos_checked", "runtime_fault_linenos_checked", "lineless_runtime_errors_checked", "cycle_error_linenos_checked", "cli_runs_on_a_path_used_before"]
 ASSUMPTIONS = ["the head 'Result = Command(' is kept on one line (the statement says where a node starts; the code reports the command-name token)",
                "for a fault inside a multi-line list both the argument's first line and the element's own line are accepted",
                "errors raised during execution with lineno None are not judged", "CR-only texts are generated without comments"]
@@ -256,11 +256,27 @@ def run_fault(ctx, case):
         _check_cli(ctx, model, text, ok_lines, exp)
 
 
+_cli_calls = {"n": 0, "dir": None}
+
+
 def _check_cli(ctx, model, text, ok_lines, exp):
     """The line the command-line tool marks with '-->' must be (the text of) the offending command's / argument's line."""
     from click.testing import CliRunner
     from mpilot.cli.mpilot import main
-    d = ctx.scratch()   # fresh directory: the API run above may have left files behind
+    _cli_calls["n"] += 1
+    if _cli_calls["n"] % 2 == 0:
+        # the very same command-file path as earlier tool runs of this process, holding another model now (an edited file, run again)
+        if _cli_calls["dir"] is None:
+            _cli_calls["dir"] = ctx.scratch()
+        d = _cli_calls["dir"]
+        for f in os.listdir(d):
+            try:
+                os.remove(os.path.join(d, f))
+            except OSError:
+                pass
+        ctx.count("cli_runs_on_a_path_used_before")
+    else:
+        d = ctx.scratch()   # fresh directory: the API run above may have left files behind
     models.write_table(model["table"], d)
     path = os.path.join(d, "model.mpt")
     with open(path, "w", encoding="utf-8", newline="") as f:
